@@ -52,6 +52,12 @@ pub fn block_case(name: &'static str, input: Shape, block: Vec<L>, loops: usize,
             ctx.fact("output-count", g.len() == want.len(), String::new());
             for i in 0..g.len().min(want.len()) {
                 ctx.eq(&format!("output[{}]", i), g[i], want[i]);
+                // the unrolling above applies the block's own layer objects in order, so the block's output is this very
+                // Float32 value (not merely close to it): a shortcut that is only approximately right is a violation
+                // (except a mean over three or more tensors, whose summation order the property does not fix)
+                if !(acc == Acc::Mean && outskips && loops >= 3) {
+                    ctx.claim(&format!("output-exact[{}]", i), Th::Fp, B::Ident(g[i], want[i]));
+                }
             }
             if dense_after {
                 let flat = t1(&want);
